@@ -198,7 +198,26 @@ def R9():
         dict(tx_id='ENST10', exons=[e], cds=(e[0] + len(UTR5), e[0] + len(UTR5) + len(cds)))])], name='R9')
 
 
-PANEL = {'R9': R9, 'R1': R1, 'R2': R2, 'R3': R3, 'R4': R4, 'R5': R5, 'R6': R6, 'R7': R7, 'R8': R8}
+def R11():
+    """non-coding, +, two exons; exon 2 is a 100-nt stretch without T: no ATG and no stop codon in any frame, so a
+    circRNA of exon 2 has an ORF only through a start-gain variant (ACG>ATG, AGG>ATG) and that ORF stays open across
+    loops (length 100 is not a multiple of 3: every loop is read in another frame).  + tiny coding gene."""
+    ex1 = 'GGCACCATGGCTAAAGCTTGTCGTGATTAAGGCTTAGCCGATCGT'
+    ex2 = ('GACGGCAAGCCAGGACGCAAGGCACGGAGCAAAGGCCGAGACGCGGCAAGACGGACCAGGCGAAGCCACGGCAGACGGAAAGCCGCAGGACGAGCAAGGCC')
+    ex2 = ex2[:100]
+    assert len(ex2) == 100 and 'T' not in ex2
+    tx = ex1 + ex2
+    dna, ex = _gene_plus(len(PAD), tx, (len(ex1),), (I1,))
+    genome = PAD + dna + PAD
+    o2 = len(genome)
+    genome += CODING_MINI
+    return refgen.Ref(genome, [
+        dict(gene_id='ENSG11', strand=1, biotype='lncRNA', transcripts=[dict(tx_id='ENST11C', exons=ex, cds=None)]),
+        dict(gene_id='ENSG09', strand=1, transcripts=[dict(tx_id='ENST09', exons=[(o2, o2 + 60)], cds=(o2 + 3, o2 + 54))]),
+    ], name='R11')
+
+
+PANEL = {'R9': R9, 'R1': R1, 'R2': R2, 'R3': R3, 'R4': R4, 'R5': R5, 'R6': R6, 'R7': R7, 'R8': R8, 'R11': R11}
 _cache = {}
 
 
